@@ -63,7 +63,7 @@ def from_project(proj):
 PROPS['C01'] = dict(
     theorems=['C01_generic_purl', 'C01_typed_purl', 'C01_same_string_G', 'C01_same_string_P'],
     accepts=lambda c: c[0] in 'PS' and kind_of(c) in 'gst',
-    gen=lambda tier, rng: (l for l in parse_stream(tier, rng, ('g', 't', 's'), TOK_Q, TOK_T)),
+    gen=lambda tier, rng: chain(parse_stream(tier, rng, ('g', 't', 's'), TOK_Q, TOK_T), gens.gen_utf8(Q(tier, 2, 3), ('g', 't'))),
     compare=impl_accepts(lambda c, p: (vals(p[0]), vals(p[1]), canon(p[0]) == canon(p[1]))),
     rule='conformance corpus and mutations of it, exhaustive bounded token language (6 families), random legal spellings of random component tuples; '
          'parse + canonical string + re-parse compared between extracted model and crate for every string the crate accepts',
@@ -102,7 +102,8 @@ def err_class(c, p):     # acceptance or the error variant only
     return 'O' if p[0].startswith('O ') else p[0]
 def chain(*gs):
     for g in gs: yield from g
-Q = lambda tier, a, b: a if tier == 'quick' else b
+FACTOR = int(os.environ.get('VERIF_INTENSIFY', '1'))
+Q = lambda tier, a, b: (a * FACTOR if isinstance(a, int) and a >= 100 else a) if tier == 'quick' else b
 
 # ------------------------------------------------------------------ C02
 def c02_compare(c, a, m):
@@ -146,11 +147,11 @@ PROPS['C04'] = dict(
 # ------------------------------------------------------------------ C05
 PROPS['C05'] = dict(
     accepts=lambda c: c[0] in 'PSX' and kind_of(c) in 'gt',
-    gen=lambda tier, rng: chain(gens.gen_fault(rng, Q(tier, 60000, 600000)), gens.gen_tok(Q(tier, TOK_Q, TOK_T), ('g', 't')), gens.gen_corpus(rng, Q(tier, 3000, 50000), ('g', 't')),
+    gen=lambda tier, rng: chain(gens.gen_fault(rng, Q(tier, 60000, 600000)), gens.gen_utf8(Q(tier, 3, 4), ('g',)), gens.gen_tok(Q(tier, TOK_Q, TOK_T), ('g', 't')), gens.gen_corpus(rng, Q(tier, 3000, 50000), ('g', 't')),
                                 gens.gen_spell(rng, Q(tier, 5000, 50000))),
     project=both(err_class),
     rule='legal spellings with exactly one injected fault of each listed kind (13 kinds, every spelling of the fault incl. 12 invalid UTF-8 patterns) with the expected error carried; '
-         'token language; corpus mutations; acceptance / error variant compared in both directions',
+         'exhaustive percent-encoded byte sequences of length <= 3 (thorough 4) over the 27 boundary bytes of the UTF-8 table in four component positions; token language; corpus mutations; acceptance / error variant compared in both directions',
 )
 # ------------------------------------------------------------------ C06
 def c06_proj(c, line, is_impl):
